@@ -6,6 +6,7 @@ import (
 	"time"
 
 	"go.nanomsg.org/mangos/v3"
+	"go.nanomsg.org/mangos/v3/protocol/pair"
 	"go.nanomsg.org/mangos/v3/protocol/xpub"
 	"go.nanomsg.org/mangos/v3/vh/kit"
 	"go.nanomsg.org/mangos/v3/vh/vt"
@@ -38,6 +39,8 @@ func init() {
 			{Name: fmt.Sprintf("dialer-backoff-hist-D%d", d), Mode: "hist", Reset: kit.ResetGlobals, Cfg: vsched.Config{RandFree: true}, Body: func() { hist(d, false) },
 				NeedCounters: []string{"redial-after-refusal", "redial-after-loss", "delay-capped", "delay-reset-after-attach", "no-dial-after-close", "sync-failure-no-retry", "traffic-resumed", "delay-grew"}},
 			{Name: fmt.Sprintf("dialer-options-on-dialer-hist-D%d", d-1), Mode: "hist", Reset: kit.ResetGlobals, Cfg: vsched.Config{RandFree: true}, Body: func() { hist(d-1, true) }},
+			{Name: "dialer-protocol-refusal-then-takeover", Mode: "enum", Reset: kit.ResetGlobals, Cfg: vsched.Config{RandFree: true}, Body: protocolRefusal,
+				NeedCounters: []string{"redial-after-protocol-refusal", "took-over-after-first-peer-left"}},
 			{Name: "dialer-close-during-dial", Mode: "sched", Bound: map[string]int{"quick": 2, "thorough": 3}[tier], Reset: kit.ResetGlobals, Body: closeDuringDial},
 		}
 	})
@@ -358,4 +361,96 @@ func closeDuringDial() {
 	}
 	kit.Observe("which=%d dials=%d pipes=%d", which, n, ep.NumPipes())
 	_ = s.Close()
+}
+
+// protocolRefusal: the transport connection succeeds but the protocol refuses the pipe (a PAIR
+// socket that already has a peer).  The dialer has to keep trying at its back-off pace, and takes
+// over as soon as the first peer has gone.
+func protocolRefusal() {
+	c := cfgs[kit.ChooseFree(len(cfgs))]
+	if !c.asynch {
+		// a synchronous first Dial whose pipe is refused afterwards has "succeeded": same redial rules
+	}
+	s, err := pair.NewSocket()
+	if err != nil {
+		kit.Failf("setup", "NewSocket: %v", err)
+	}
+	for n, v := range map[string]interface{}{mangos.OptionReconnectTime: c.min, mangos.OptionMaxReconnectTime: c.max, mangos.OptionDialAsynch: c.asynch} {
+		if err := s.SetOption(n, v); err != nil {
+			kit.Failf("setup", "SetOption(%s): %s", n, kit.ErrName(err))
+		}
+	}
+	lep, dep := vt.Get("refl"), vt.Get("refd")
+	if err := s.Listen("vt://refl"); err != nil {
+		kit.Failf("setup", "Listen: %s", kit.ErrName(err))
+	}
+	first := lep.Connect()
+	kit.Quiesce()
+	if first.ClosedByMangos() {
+		kit.Failf("setup", "first peer refused")
+	}
+	dep.Script(vt.DialOK)
+	dc := kit.Start("Dial", func() (interface{}, error) { return nil, s.Dial("vt://refd") })
+	kit.Quiesce()
+	if !dc.Done() || dc.Err != nil {
+		kit.Failf("dial-refused-by-protocol", "Dial: done=%v %s", dc.Done(), kit.ErrName(dc.Err))
+	}
+	// every dialed connection is refused by the protocol while the first peer is attached
+	rounds := 3
+	for i := 0; i < rounds; i++ {
+		n := dep.NumDials()
+		if !dep.PipeAt(n - 1).ClosedByMangos() {
+			kit.Failf("second-peer-not-refused", "attempt %d: the dialed connection was not refused although a peer is attached", n)
+		}
+		at, ok := vsched.NextTimer()
+		if !ok {
+			kit.Failf("dialer-gave-up", "after %d protocol refusal(s) no redial is scheduled", n)
+		}
+		last := dep.Dials[n-1].At
+		gap := at - last
+		if gap < c.min {
+			kit.Failf("redial-too-soon", "redial scheduled %v after the refused attempt; ReconnectTime is %v", gap, c.min)
+		}
+		if c.max > 0 && gap > c.max && gap > c.min {
+			kit.Failf("redial-beyond-max", "redial scheduled %v after the refused attempt; MaxReconnectTime is %v", gap, c.max)
+		}
+		kit.Sleep(at - kit.Now())
+		kit.Quiesce()
+		if dep.NumDials() != n+1 {
+			kit.Failf("dialer-gave-up", "the redial timer fired but no attempt was made (attempts: %d)", dep.NumDials())
+		}
+		kit.Count("redial-after-protocol-refusal")
+	}
+	// the first peer leaves: the next attempt must attach and carry traffic
+	first.DropNow()
+	kit.Quiesce()
+	for i := 0; i < 3; i++ {
+		if p := dep.PipeAt(dep.NumPipes() - 1); p.Alive() {
+			break
+		}
+		at, ok := vsched.NextTimer()
+		if !ok {
+			kit.Failf("dialer-gave-up", "the first peer left, but no redial is scheduled")
+		}
+		kit.Sleep(at - kit.Now())
+		kit.Quiesce()
+	}
+	p := dep.PipeAt(dep.NumPipes() - 1)
+	if !p.Alive() {
+		kit.Failf("no-takeover", "the first peer has gone but the dialed connection still does not attach")
+	}
+	sc := kit.Start("Send", func() (interface{}, error) { return nil, s.Send([]byte("hello")) })
+	kit.Quiesce()
+	if !sc.Done() || sc.Err != nil || p.NumSent() != 1 {
+		kit.Failf("traffic-not-resumed", "after the takeover Send: done=%v %s, peer has %d messages", sc.Done(), kit.ErrName(sc.Err), p.NumSent())
+	}
+	kit.Count("took-over-after-first-peer-left")
+	kit.Observe("cfg=%v dials=%d", c, dep.NumDials())
+	kit.Must("Close", func() { _ = s.Close() })
+	nd := dep.NumDials()
+	kit.Sleep(time.Minute)
+	kit.Quiesce()
+	if dep.NumDials() != nd {
+		kit.Failf("dial-after-close", "attempts after Close")
+	}
 }
